@@ -28,14 +28,15 @@ def run(module, cfg, workdir, env=None, workers=8, simulate=None, depth=None, se
         timeout=900, coverage=False, deque=False, xmx="8g", expect_violation=False, extra=()):
     """module: name in spec/ (without .tla); cfg: file name in spec/"""
     os.makedirs(workdir, exist_ok=True)
-    meta = os.path.join(workdir, "meta_%s_%d" % (os.path.splitext(cfg)[0], os.getpid()))
+    cfgname = os.path.splitext(os.path.basename(cfg))[0]
+    meta = os.path.join(workdir, "meta_%s_%d" % (cfgname, os.getpid()))
     shutil.rmtree(meta, ignore_errors=True)
     jopts = ["-XX:+UseParallelGC", "-Xmx" + xmx]
     if deque:
         jopts.append("-Dtlc2.tool.queue.IStateQueue=StateDeque")
     cmd = ["timeout", str(timeout), "java"] + jopts + ["-cp", JAR, "tlc2.TLC",
            "-workers", str(workers), "-metadir", meta, "-noGenerateSpecTE",
-           "-config", os.path.join(SPEC, cfg)]
+           "-config", cfg if os.path.isabs(cfg) else os.path.join(SPEC, cfg)]
     if simulate is not None:
         cmd += ["-simulate", "num=%d" % simulate]
         if depth:
@@ -55,7 +56,7 @@ def run(module, cfg, workdir, env=None, workers=8, simulate=None, depth=None, se
     r.wall = time.time() - t
     r.out = p.stdout
     shutil.rmtree(meta, ignore_errors=True)
-    with open(os.path.join(workdir, "tlc_%s.log" % os.path.splitext(cfg)[0]), "w") as f:
+    with open(os.path.join(workdir, "tlc_%s.log" % cfgname), "w") as f:
         f.write(" ".join(cmd) + "\n" + p.stdout)
     m = re.findall(r"(\d+) states generated, (\d+) distinct states found", p.stdout)
     if m:
